@@ -69,5 +69,13 @@ def leadingComment : Str → Option (Str × Str)
   | '/' :: '*' :: rest => splitClose rest
   | _ => none
 
+/-- executable test: `s` is the body of a string literal delimited by `q` — no bare `q`, no dangling backslash
+(sound for `LitBody`, `Lemmas/Closed.lean`) -/
+def litBodyB (q : Char) : Str → Bool
+  | [] => true
+  | [c] => c != q && c != '\\'
+  | c :: d :: r => if c = '\\' then litBodyB q r else c != q && litBodyB q (d :: r)
+
+
 end Comment
 end TsRs
